@@ -350,7 +350,7 @@ where
     fn update_partial_frame(
         &mut self,
         spi: &mut SPI,
-        delay: &mut DELAY,
+        _delay: &mut DELAY,
         buffer: &[u8],
         x: u32,
         y: u32,
@@ -359,7 +359,8 @@ where
     ) -> Result<(), SPI::Error> {
         self.set_display_window(spi, x, y, x + width - 1, y + height - 1)?;
         self.set_cursor(spi, x, y)?;
-        self.update_achromatic_frame(spi, delay, buffer)?;
+        self.interface.cmd(spi, Command::WriteBlackWhiteRAM)?;
+        self.interface.data(spi, buffer)?;
         self.set_display_window(spi, 0, 0, WIDTH - 1, HEIGHT - 1)
     }
 
